@@ -1359,4 +1359,44 @@ theorem qr1Chunkss_eq (a : Chunks) (q r : Chunks) (h : qr1Chunkss a = some (q, r
       omega
   · simp at h
 
+
+/-! ## BlockView -/
+
+theorem allSome_map_get {α β : Type} (f : α → Option β) (l : List α) (r : List β) (h : allSome (l.map f) = some r)
+    (b : Nat) (v : β) (hv : r[b]? = some v) : (l[b]?).bind f = some v := by
+  induction l generalizing r b with
+  | nil => simp [allSome] at h; subst h; simp at hv
+  | cons x xs ih =>
+    simp only [List.map_cons, allSome] at h
+    obtain ⟨y, ys, hy, hys, rfl⟩ := (consOpt_eq_some _ _ _).mp h
+    cases b with
+    | zero => simp at hv; subst hv; simpa using hy
+    | succ b => simp only [List.getElem?_cons_succ] at hv ⊢; exact ih ys hys b hv
+
+theorem blocksBlock_ok (x : Chunks) (sels : List (List Nat)) (d : Chunks) (hd : blocksChunkss x sels = some d)
+    (coords s : List Nat) (he : extents d coords = some s) : blocksBlock x sels coords = some s := by
+  induction x generalizing sels d coords s with
+  | nil =>
+    cases sels with
+    | nil =>
+      simp [blocksChunkss] at hd; subst hd
+      cases coords with
+      | nil => simpa [extents, blocksBlock] using he
+      | cons _ _ => simp [extents] at he
+    | cons _ _ => simp [blocksChunkss] at hd
+  | cons c cs ih =>
+    cases sels with
+    | nil => simp [blocksChunkss] at hd
+    | cons idx is =>
+      simp only [blocksChunkss] at hd
+      obtain ⟨l, r, hl, hr, rfl⟩ := (consOpt_eq_some _ _ _).mp hd
+      cases coords with
+      | nil => simp [extents] at he
+      | cons b bs =>
+        simp only [extents] at he
+        obtain ⟨v, vs, hv, hvs, rfl⟩ := (consOpt_eq_some _ _ _).mp he
+        simp only [blocksBlock]
+        rw [ih is r hr bs vs hvs, allSome_map_get _ idx l hl b v hv]
+        rfl
+
 end Cubed.ShapeCalc
